@@ -20,7 +20,7 @@ func init() {
 	})
 	register(&Rule{
 		ID:    "C10.global",
-		Props: []string{"C10"},
+		Props: []string{"C10", "C14"},
 		Doc:   "no package-level state is written after init, and no nondeterminism/concurrency primitive is used: stores to globals only in init; no go statement; no call into time, math/rand, os, sync, sync/atomic, runtime (other than via fmt/errors)",
 		Floor: 0,
 		Run:   runC10Global,
